@@ -7073,6 +7073,14 @@ class _RoundShape(Shape):
 
         Converts the parameters from an ellipse or a circle to a string for a
         Path object d-attribute"""
+        if transformed:
+            m = self.transform
+            if abs(m.a * m.c + m.b * m.d) > 1e-12 * sqrt(
+                (m.a * m.a + m.b * m.b) * (m.c * m.c + m.d * m.d)
+            ):
+                # The transform skews the axes, the implicit radii and rotation do not describe the
+                # transformed ellipse. Transform the decomposition instead.
+                return [s * m for s in self.segments(transformed=False)]
         original = self.apply
         self.apply = transformed
         path = Path()
